@@ -10,6 +10,7 @@ import (
 	"strings"
 
 	"github.com/moorara/algo/lexer"
+	pparser "github.com/moorara/algo/parser"
 	"github.com/moorara/algo/parser/lr"
 
 	"github.com/gardenbed/emerge/internal/ebnf/parser"
@@ -127,4 +128,102 @@ func cmdAction(f []string) string {
 func cmdGoto(f []string) string {
 	s, _ := strconv.Atoi(f[0])
 	return strconv.Itoa(parser.GOTO(s, grammarNonTerminal(unhx(f[1]))))
+}
+
+func init() {
+	commands["lreval"] = cmdLrEval
+	commands["lrast"] = cmdLrAst
+}
+
+func stubParser(kinds []int) *parser.Parser {
+	terms := parser.VerifTerminals()
+	var toks []lexer.Token
+	for i, k := range kinds {
+		toks = append(toks, lexer.Token{
+			Terminal: terms[k],
+			Lexeme:   "L" + strconv.Itoa(i),
+			Pos:      lexer.Position{Filename: "f", Offset: i, Line: 1, Column: i + 1},
+		})
+	}
+	return &parser.Parser{L: &stubLexer{toks: toks}}
+}
+
+func lrValStr(v *lr.Value) string {
+	if v == nil {
+		return "nil"
+	}
+	pos := "-"
+	if v.Pos != nil {
+		pos = strconv.Itoa(v.Pos.Offset)
+	}
+	return fmt.Sprint(v.Val) + "@" + pos
+}
+
+// lreval <failAt|-1> <t0,t1,...|->: ParseAndEvaluate; the evaluation function builds an S-expression
+// of what it receives and fails at its failAt-th invocation.
+func cmdLrEval(f []string) string {
+	failAt, _ := strconv.Atoi(f[0])
+	p := stubParser(parseInts(f[1]))
+	calls := 0
+	v, err := p.ParseAndEvaluate(func(i int, rhs []*lr.Value) (any, error) {
+		calls++
+		if calls-1 == failAt {
+			return nil, errors.New("cb")
+		}
+		var b strings.Builder
+		fmt.Fprintf(&b, "(%d", i)
+		for _, r := range rhs {
+			b.WriteString(" " + lrValStr(r))
+		}
+		b.WriteString(")")
+		return b.String(), nil
+	})
+	if err != nil {
+		if v != nil {
+			return "ERR+VALUE " + hx(err.Error())
+		}
+		return "ERR " + hx(err.Error())
+	}
+	if v == nil {
+		return "NILNIL"
+	}
+	return "OK " + hx(lrValStr(v))
+}
+
+func astNodeStr(n pparser.Node, idx map[int]int) string {
+	switch v := n.(type) {
+	case *pparser.LeafNode:
+		return v.Lexeme
+	case *pparser.InternalNode:
+		var b strings.Builder
+		pi := -1
+		for i, p := range parser.VerifProductions() {
+			if p.Equal(v.Production) {
+				pi = i
+			}
+		}
+		fmt.Fprintf(&b, "(%d", pi)
+		for _, c := range v.Children {
+			b.WriteString(" " + astNodeStr(c, idx))
+		}
+		b.WriteString(")")
+		return b.String()
+	}
+	return "?"
+}
+
+// lrast <t0,t1,...|->: ParseAndBuildAST
+func cmdLrAst(f []string) string {
+	p := stubParser(parseInts(f[0]))
+	n, err := p.ParseAndBuildAST()
+	if err != nil {
+		if n != nil {
+			return "ERR+VALUE " + hx(err.Error())
+		}
+		return "ERR " + hx(err.Error())
+	}
+	if n == nil {
+		return "NILNIL"
+	}
+	return "OK " + hx(astNodeStr(n, nil))
 }
